@@ -50,6 +50,29 @@ def enzymes():
     return out
 
 
+@functools.lru_cache(None)
+def degenerate_enzymes():
+    """Type IIS enzymes of the same kind (5' overhang, single cut downstream of the site, non-palindromic) whose
+    recognition site contains IUPAC ambiguity codes -- outside C01's stated domain, inside C04's ("every supported enzyme")."""
+    seen = {}
+    for e in sorted(Restriction.AllEnzymes, key=lambda e: e.__name__):
+        if e.is_blunt() or e.is_unknown() or e.is_palindromic() or not e.is_5overhang():
+            continue
+        if e.scd5 is not None or e.fst5 is None:
+            continue
+        site = e.site
+        if not (set(site) - set("ACGT")) or e.fst5 <= len(site):
+            continue
+        el = e.elucidate()
+        if el in seen:
+            continue
+        g = rm.Geometry(e.__name__, site, e.fst5 - len(site), -e.ovhg)
+        if el != site + "N" * g.off + "^" + "N" * g.ov + "_N":
+            raise HarnessError("geometry of {} disagrees with elucidate()".format(e.__name__))
+        seen[el] = (e.__name__, g)
+    return sorted(seen.values(), key=lambda t: t[0])
+
+
 def enzyme(name):
     return getattr(Restriction, name)
 
